@@ -30,7 +30,7 @@ def run_case(case):
     specs, driver, cf, cuts = case["frames"], case["driver"], case.get("cf", False), case.get("cuts", [])
     obs = Obs()
     fire = bool(case.get("fire")) and driver in ("data_frame", "data")
-    skip = bool(case.get("skip")) and driver != "recv"
+    skip = bool(case.get("skip")) and driver not in rx.RECVS
     events, ws, fs, frames, ends, wire = rx.run_stream(specs, cuts, driver, cf, fire, skip)
     want, wwr = rx.expected_events(frames, ends, len(wire), driver, cf, fire, skip)
     rx.compare(obs, events, want, f"decode|{driver}")
